@@ -327,7 +327,7 @@ def gen(rng: random.Random, h5rec: Dict[str, Any], stage: int, job: Dict[str, An
                                   "copy_src", "copy_dst", "copy_name_kw"])
         a["p"] = rng.choice([n["p"] for n in tree if n["p"]] or [["a"]])
         return a
-    e = h5lib.gen_op(rng, tree, depth=3, values=["v1", "v2", "v3", "v8"],
+    e = h5lib.gen_op(rng, tree, depth=job.get("depth", 3), values=["v1", "v2", "v3", "v8"],
                      weights=job.get("data_weights") or {"copy": 3.5, "move": 3, "delete": 3, "set_attr": 1.5, "del_attr": 0.7},
                      allow_copy_into_self=False, attr_keys=job.get("attr_keys"))
     a.update({k: e[k] for k in e if k in a or k in ("how",)})
